@@ -51,6 +51,9 @@ func defaultCfg() GenCfg {
 type Gen struct {
 	rnd     *rand.Rand
 	nextRid int
+	// forceReplace: multiOutCase produces a singleton multi-output registration with one plain output removed and
+	// replaced by a singleton constructor without dependencies (the C06 variant of that family)
+	forceReplace bool
 }
 
 func newGen(seed int64) *Gen { return &Gen{rnd: rand.New(rand.NewSource(seed)), nextRid: 1} }
